@@ -6,6 +6,7 @@ mod lint;
 mod minimise;
 mod props;
 mod reader;
+mod refmodel;
 mod rng;
 mod scenario;
 mod snapshot;
@@ -96,6 +97,11 @@ fn main() {
             let tier = if args[2] == "thorough" { Tier::Thorough } else { Tier::Quick };
             let p = |i: usize| args[i].parse::<u64>().unwrap_or(0);
             driver::worker(&args[1], tier, p(3), p(4), p(5), p(6));
+        }
+        "minimise" => {
+            let Some(f) = args.get(1) else { usage() };
+            let wall = args.get(2).and_then(|s| s.parse().ok()).unwrap_or(300);
+            std::process::exit(driver::minimise_file(f, wall));
         }
         "replay" => {
             let Some(f) = args.get(1) else { usage() };
